@@ -267,3 +267,49 @@ theorem bhrz03N_compare_wf (n : Nat) :
   exact ⟨a.2, b.2, h⟩
 
 end PPLV.Widen
+
+/-! ### the order of `BHZ03_widening_assign` on powersets -/
+namespace PPLV.Widen
+
+/-- certificate of a powerset element: certificate of the hull of its disjuncts, certificates of the disjuncts -/
+structure PSCert (α : Type) where
+  hull : α
+  certs : List α
+
+/-- "`x` is below `y`" as `BHZ03_widening_assign` guarantees it of its result `x` against the previous
+    iterate `y`: the hull certificate decreased (first / second / fourth technique), or the hulls have the
+    same certificate and either `x` is a singleton while `y` is not (the fall-back to the hull), or `y`
+    is not a singleton and the multiset test passed. -/
+def Bhz03Less {α : Type} (lessPh : α → α → Prop) (cmp : α → α → Ordering) (x y : PSCert α) : Prop :=
+  lessPh x.hull y.hull ∨
+  (x.hull = y.hull ∧
+    ((x.certs.length = 1 ∧ 1 < y.certs.length) ∨
+     (1 < y.certs.length ∧ isCertMultisetStabilizing cmp x.certs y.certs = true)))
+
+theorem bhz03Less_wf {α : Type} {lessPh : α → α → Prop} {cmp : α → α → Ordering}
+    (wfPh : WellFounded lessPh) (h : LawfulCmp cmp) (wf : WellFounded (fun a b : α => cmp a b = .lt)) :
+    WellFounded (Bhz03Less lessPh cmp) := by
+  have wfMS := isCertMultisetStabilizing_wf h wf
+  have wfL : WellFounded (Prod.Lex lessPh (Prod.Lex (· < · : Nat → Nat → Prop)
+      (fun X Y : List α => isCertMultisetStabilizing cmp X Y = true))) :=
+    WellFounded.prod_lex wfPh (WellFounded.prod_lex Nat.lt_wfRel.wf wfMS)
+  refine Subrelation.wf (r := InvImage _ (fun p : PSCert α =>
+    (p.hull, (if p.certs.length = 1 then 0 else 1), p.certs))) ?_ (InvImage.wf _ wfL)
+  intro x y hxy
+  rcases hxy with h1 | ⟨e, h2⟩
+  · exact Prod.Lex.left _ _ h1
+  · simp only [InvImage]
+    rw [e]
+    apply Prod.Lex.right
+    rcases h2 with ⟨hx, hy⟩ | ⟨hy, hs⟩
+    · have : ¬ y.certs.length = 1 := by omega
+      simp only [hx, this, ↓reduceIte]
+      exact Prod.Lex.left _ _ Nat.zero_lt_one
+    · have hy' : ¬ y.certs.length = 1 := by omega
+      by_cases hx : x.certs.length = 1
+      · simp only [hx, hy', ↓reduceIte]
+        exact Prod.Lex.left _ _ Nat.zero_lt_one
+      · simp only [hx, hy', ↓reduceIte]
+        exact Prod.Lex.right _ hs
+
+end PPLV.Widen
